@@ -16,4 +16,12 @@ PROPS = {
         "assumptions": ["64-bit platform (usize = u64)"],
         "rule": "request lines (enc/dec/len/utf8/tz8 with type descriptor and value or bytes); non-trivial = every distinct line (each is a different value, type, truncation or corruption)",
     },
+    "C27": {
+        "streams": [("c27", 3000, 100000), ("c27x", 2, 4)],
+        "trusted": [TIE_C,
+                    "model of ReadAdapter in lean/Wf/Model/Adapter.lean (hand-written from byte_reader.rs after the fix: commits; BufReader modelled from its documented contract: fill_buf refills only when empty, by one read of at most 256 bytes; Vec growth policy modelled but unobservable)",
+                    "composite operations (read_u16..u128, read_usize, read_bool) are the trait's provided methods; the driver runs the same code over both readers, the theorem covers the six required methods"],
+        "assumptions": ["the underlying Read returns >= 1 byte per call until the content is exhausted, then 0 forever (sticky EOF); I/O errors other than EOF are not modelled"],
+        "rule": "histories = (content, chunk schedule, operation list); c27x enumerates ALL op lists up to the depth over a 9-op alphabet x ALL chunk compositions of a 6-byte content; non-trivial = distinct request line",
+    },
 }
